@@ -51,13 +51,13 @@ def delivery_loop(ctx, rule):
                 if e == "iter":
                     fb = c.facts_before
                     keys = {k: p for k, p in fb}
-                    elig = keys.get(f"{t}.done()") is False and keys.get(f"{t}._must_cancel") is False and keys.get(f"{t} is current_task()") is False \
-                        and (keys.get(f"{t} is self._host_task") is True or keys.get(f"_task_started({t})") is True) \
+                    elig = keys.get(f"{t}.done()") is False and keys.get(f"{t}._must_cancel") is False and keys.get(F(f"{t} is current_task()")[0]) is False \
+                        and (keys.get(F(f"{t} is self._host_task")[0]) is True or keys.get(f"_task_started({t})") is True) \
                         and any((k.startswith("isinstance(") and k.endswith(", asyncio.Future)") and p is False) or (k.endswith(".done()") and k != f"{t}.done()" and p is False)
                                 for k, p in fb)
                     if elig:
                         return Bad("a task that is eligible for cancellation (started, not current, waiter not done) is not cancelled by the delivery loop")
-                    live = keys.get(f"{t}.done()") is False and keys.get(f"{t}._must_cancel") is False and keys.get(f"{t} is current_task()") is False
+                    live = keys.get(f"{t}.done()") is False and keys.get(f"{t}._must_cancel") is False and keys.get(F(f"{t} is current_task()")[0]) is False
                     if live:
                         reason = keys.get(f"_task_started({t})") is False or any(
                             k.endswith(".done()") and k != f"{t}.done()" and p is True for k, p in fb)
